@@ -23,6 +23,11 @@ int j_eq(const jv *a, const jv *b);
 /* builders (same arena) */
 jv *j_mkint(long v);
 jv *j_mkstr(const char *s);
+/* Arbitrary bytes in argument / environment strings: the scripts (TLA+ strings, JSON) stay ASCII and write a byte that is
+ * not printable ASCII as %XX (and '%' itself as %25); the harness decodes before it calls the library and encodes what the
+ * child received before it compares. */
+char *j_pct_decode(char *s);             /* in place; returns s */
+char *j_pct_encode(const char *s);       /* malloc'd */
 jv *j_mkarr(void);
 jv *j_mkobj(void);
 void j_push(jv *arr, jv *v);
